@@ -1,7 +1,7 @@
 (** C03 — Requests always carry exactly the current interest set of their type.
     Statements only; proofs are [exact] of lemmas in Proofs/SysProofs.v. *)
 From Xds Require Import Model.Base Model.Fqdn Model.Proto Model.Decode Model.Pick Model.Route Model.Mw Model.Sys Proofs.SysProofs.
-From Xds Require Import Model.DecodeCheck Model.SysCheck Proofs.WireProofs.
+From Xds Require Import Model.DecodeCheck Model.SysCheck Model.Queue Proofs.WireProofs Proofs.QueueProofs.
 Open Scope string_scope.
 
 (** Every request a subscription change emits is of that type, is sent on the live stream, and lists exactly
@@ -71,3 +71,22 @@ Theorem C03_example :
   (s_stream s, option_map q_names (last_on TCl (s_stream s) sent), map (fun sq => (fst sq, q_nonce (snd sq))) sent, rcvd) =
   (1%N, Some ["c"; "b"; "a"], [(0%N, ""); (0%N, ""); (0%N, "n7"); (1%N, ""); (1%N, "")], [(0%N, "n7")]).
 Proof. exact wire_example_proof. Qed.
+
+(** WITH THE ASYNCHRONOUS SENDER (Model/Queue.v).  The theorems above treat a request as sent when it is built; in the
+    code it is built and queued under the client lock and sent later by the sender goroutine, which may meanwhile lose
+    its stream or be handed a new one (it then re-subscribes from the current state, ahead of the older requests still
+    queued).  For EVERY interleaving of interest changes, sends, failing sends, reconnects and hand-overs: once nothing is
+    in flight (queue empty, no stream waiting to be taken, the sender on the newest stream) the last request of every
+    subscribed type on the newest stream lists exactly the interest set. *)
+Theorem C03_quiescent_wire_async : forall h, quiescent (qrun h) ->
+  forall t ws, tget t (q_sub (qrun h)) = Some ws -> last_sent t (q_live (qrun h)) (q_sent (qrun h)) = Some ws.
+Proof. exact async_quiescent_wire. Qed.
+Print Assumptions C03_quiescent_wire_async.
+
+(** the transient the asynchrony allows (and which the wire monitor of the stress runs leaves out): on a new stream the
+    re-subscription is fresher than an older request still queued behind it, so the listed names shrink once and catch up *)
+Theorem C03_async_example :
+  let h := [QChange TCl ["a"]; QSend; QReconnect; QChange TCl ["b"; "a"]; QChange TCl ["c"; "b"; "a"]; QPickup 0; QSend; QSend] in
+  (map (fun x => (fst x, snd (snd x))) (q_sent (qrun h)), q_queue (qrun h)) =
+  ([(0%N, ["a"]); (1%N, ["c"; "b"; "a"]); (1%N, ["b"; "a"]); (1%N, ["c"; "b"; "a"])], []).
+Proof. exact async_example. Qed.
